@@ -254,7 +254,7 @@ class BADS:
 
         # evaluate  starting point non-bound constraint
         if non_box_cons is not None:
-            if non_box_cons(self.x0) > 0:
+            if np.any(np.asarray(non_box_cons(self.x0)) > 0):
                 self.logger.error(
                     "Initial starting point X0 does not satisfy non-bound constraints (non_box_cons)."
                 )
@@ -536,8 +536,10 @@ class BADS:
 
         # Check non bound constraints
         if non_box_cons is not None:
-            y = non_box_cons(
-                np.vstack([plausible_lower_bounds, plausible_upper_bounds])
+            y = np.asarray(
+                non_box_cons(
+                    np.vstack([plausible_lower_bounds, plausible_upper_bounds])
+                )
             )
             if y.shape[0] != 2 and y.ndim == 1:
                 raise ValueError(
@@ -691,7 +693,7 @@ class BADS:
         
         # Check that the gridized points satisfies the non-bound constraints
         if self.non_box_cons is not None and \
-            np.any(self.non_box_cons(self.var_transf.inverse_transf(u0)) > 0):
+            np.any(np.asarray(self.non_box_cons(self.var_transf.inverse_transf(u0))) > 0):
             self.logger.error(
                 """Initial starting point X0 does no longer satisfy non-bound constraint after being fit into the mesh grid."""
             )
